@@ -1,6 +1,10 @@
 package h
 
 import (
+	"cosmossdk.io/math"
+	channeltypes "github.com/cosmos/ibc-go/v8/modules/core/04-channel/types"
+
+	fwdtypes "github.com/noble-assets/orbiter/v2/types/controller/forwarding"
 	transfertypes "github.com/cosmos/ibc-go/v8/modules/apps/transfer/types"
 
 	adapterctrl "github.com/noble-assets/orbiter/v2/controller/adapter"
@@ -11,6 +15,7 @@ import (
 func init() {
 	reg("H_C16_denom", H_C16_denom)
 	reg("H_C16_credit", H_C16_credit)
+	reg("H_C16_ports", H_C16_ports)
 }
 
 // segment draws one '/'-free piece of a denomination: the identifiers that matter, or arbitrary bytes of a chosen length
@@ -103,4 +108,31 @@ func H_C16_credit() {
 	verif.Assert(fwdDenom == c.Denom, "forwarded-denomination-is-the-credited-one")
 	e := w.K.ExportGenesis(w.Ctx).DispatcherGenesis
 	verif.Assert(len(e.DispatchedAmounts) == 1 && e.DispatchedAmounts[0].Denom == c.Denom && e.DispatchedAmounts[0].AmountDispatched.Incoming.Equal(c.Amount), "recorded-coin-is-the-credited-one")
+}
+
+// H_C16_ports: the counterparty's port need not be called like Noble's: the voucher prefix is the packet's SOURCE port and
+// channel. Packets to the orbiter account over such channels: accepted only when ICS-20 credits a Noble-native coin, and
+// then orbiter acts on exactly that coin.
+func H_C16_ports() {
+	w := NewWorld(false)
+	w.L.Set(escrow, nativeDenom, math.NewInt(1000000))
+	port := []string{"transfer", "wasm.noble1counterparty", "icahost"}[verif.Choose("source-port", 3)]
+	ch := []string{"channel-7", "mychannel01"}[verif.Choose("source-channel", 2)]
+	denom := []string{port + "/" + ch + "/" + nativeDenom, "transfer/" + ch + "/" + nativeDenom, port + "/channel-0/" + nativeDenom, "transfer/channel-0/" + nativeDenom, nativeDenom}[verif.Choose("denom", 5)]
+	f, err := fwdtypes.NewInternalForwarding(user1.String())
+	must(err)
+	pl, err := core.NewPayload(f)
+	must(err)
+	d := transfertypes.FungibleTokenPacketData{Denom: denom, Amount: "1000", Sender: "sender", Receiver: core.ModuleAddress.String(), Memo: verif.EncodeMemo(&core.PayloadWrapper{Orbiter: pl}, 0)}
+	pkt := channeltypes.Packet{Sequence: 1, SourcePort: port, SourceChannel: ch, DestinationPort: "transfer", DestinationChannel: "channel-0", Data: verif.EncodeICS20(d)}
+	ack := w.MW.OnRecvPacket(w.Ctx, pkt, relayerAddr)
+	returning := denom == port+"/"+ch+"/"+nativeDenom
+	if !ack.Success() {
+		verif.Cover("refused")
+		verif.Assert(!returning, "returning-native-token-is-processed-whatever-the-port-is-called")
+		return
+	}
+	verif.Cover("accepted")
+	verif.Assert(returning, "only-tokens-returning-over-the-source-port-and-channel-are-processed")
+	verif.Assert(w.App.credited.Denom == nativeDenom && len(w.Int.reqs) == 1 && w.Int.reqs[0].Amount[0].Denom == w.App.credited.Denom && w.Int.reqs[0].Amount[0].Amount.Equal(w.App.credited.Amount), "forwarded-coin-is-the-credited-coin")
 }
